@@ -9,8 +9,8 @@ import tlc
 import trainrun
 import common
 
-EXPORT = ('MC_Export == pc = "Done" => PrintT(ToJson([cfg |-> cfg, hist |-> hist, '
-          'fin |-> [stop |-> stop, pver |-> pver, sched |-> sched, cbs |-> cbs]]))')
+EXPORT = ('MC_Export == pc = "Done" /\\ cfg.again = "no" => PrintT(ToJson([cfg |-> cfg, hist |-> hist, '
+          'carry |-> carry, fin |-> [stop |-> stop, pver |-> pver, sched |-> sched, cbs |-> cbs]]))')
 
 BASE_INV = ["TypeOK", "Protocol", "ParamsOnlyInBatch", "ListOrder", "StopHonoured", "Complete",
             "StepProtocol", "SchedOncePerEpoch", "EachRowOnce", "OwnBasis", "OnSchedule", "FirstHit"]
@@ -21,9 +21,9 @@ def mc(cfgs, maxinj=1, invariants=BASE_INV, export=True, liveness=False, timeout
     """cfgs: TLA+ text of a set of configurations, or a list of such texts (one shard each)."""
     inv = list(invariants) + (["MC_Export"] if export else [])
     shards = [cfgs] if isinstance(cfgs, str) else list(cfgs)
-    body = " [] ".join("s = %d -> %s" % (i + 1, t) for i, t in enumerate(shards))
+    body = " [] ".join("shardNo = %d -> %s" % (i + 1, t) for i, t in enumerate(shards))
     return tlc.run("Train", constants={"MaxInj": maxinj},
-                   defs={"Shards": "1..%d" % len(shards), "CfgsOf(s)": "CASE " + body},
+                   defs={"Shards": "1..%d" % len(shards), "CfgsOf(shardNo)": "CASE " + body},
                    spec="Spec" if liveness else None,
                    properties=["Terminates"] if liveness else (),
                    invariants=inv, extends_extra=["Json"], extra_text=EXPORT if export else "",
@@ -159,7 +159,7 @@ def validate_traces(lines, timeout=900):
         with open(path, "w") as fh:
             for ln in lines:
                 fh.write(json.dumps(ln) + "\n")
-        res = tlc.run("TraceTrain", constants={"MaxInj": 3}, defs={"Shards": "{}", "CfgsOf(s)": "NoCfgs(s)"},
+        res = tlc.run("TraceTrain", constants={"MaxInj": 3}, defs={"Shards": "{}", "CfgsOf(shardNo)": "NoCfgs(shardNo)"},
                       init="TInit", next="TNext", constraints=["Track"], postcondition="Verdicts",
                       invariants=BASE_INV, workers=1, timeout=timeout, env={"TRACE_FILE": path})
     finally:
